@@ -374,11 +374,29 @@ pub fn c10_script(r: &mut Rng, _index: u64, _tier: Tier) -> (CaseCfg, Vec<Step>)
     // acknowledgement is owed and still queued), and the application only comes back when the
     // keep-alive probe is due as well: acknowledgement and PINGREQ go out in one pass, and the
     // keep-alive goes on from there
-    if eff > 0 && !tiny_mps && r.chance(1, 5) {
+    if eff > 0 && !tiny_mps && r.chance(1, 4) {
+        // (half of those: it comes back with a request, not a wait; the transport takes one byte
+        // per write and pauses for seconds after the first byte of that call - which belongs to
+        // the owed acknowledgement -; the PINGREQ follows in the same call and the broker answers
+        // it late, but inside the five seconds that count from when the PINGREQ went out)
+        let via_request = r.chance(1, 2);
+        if via_request {
+            let stall = *r.pick(&[2_500_000u64, 4_000_000]);
+            s.push(Step::Io { policy: Some(IoPolicy { write: Chunk::One, slow_write_us: stall, ..IoPolicy::default() }), faults: vec![] });
+            let late = *r.pick(&[5_000_000 - stall + 300_000, 4_000_000u64.max(5_000_000 - stall + 300_000), 4_900_000]);
+            s.push(Step::Broker(BrokerAct::Policy(BrokerPolicy { acks: AckMode::Immediate, ping: AckMode::Delay(late), fail_pct: 0, longform_pct: 0 })));
+        }
         let q = 1 + r.below(2) as u8;
         s.push(Step::Broker(BrokerAct::Send(SPacket::Publish { dup: false, qos: q, retain: false, topic: "in/owed".into(), pid: Some(700), props: vec![], payload: vec![7] })));
         s.push(if use_recv { Step::Recv { max_wait: 1000, cancel_at: None } } else { Step::Poll { max_wait: 1000, cancel_at: None } });
         s.push(Step::Advance(interval.saturating_sub(1000) + *r.pick(&[0u64, 1, 1000, 500_000])));
+        if via_request {
+            s.push(match r.below(3) {
+                0 => Step::Subscribe(SubSpec { filters: vec![FilterSpec { filter: "k/d".into(), max_qos: 0, no_local: false, rap: false, rh: 0 }], props: vec![], cancel_at: None }),
+                _ => pubq(1, "k/d", 0xD7A, 1),
+            });
+            s.push(Step::Poll { max_wait: 6_000_000, cancel_at: None });
+        }
     }
     for i in 0..r.range(4, 10) {
         let wait = match r.below(9) {
@@ -839,11 +857,14 @@ pub fn ping_between_pieces_script(r: &mut Rng, _index: u64, _tier: Tier) -> (Cas
     // a little time passes first, so that the pause inside the packet carries the clock past the deadline
     s.push(Step::Advance(*r.pick(&[1u64, 1000, 200_000])));
     for k in 0..r.range(1, 3) {
-        s.push(match r.below(4) {
+        s.push(match r.below(6) {
             0 => pubq(1, "pieces/a", 40 + k as u32, r.range(8, 40)),
             1 => pubq(2, "pieces/b", 50 + k as u32, r.range(8, 40)),
             2 => Step::Subscribe(SubSpec { filters: vec![FilterSpec { filter: "pieces/#".into(), max_qos: 1, no_local: false, rap: false, rh: 0 }], props: vec![], cancel_at: None }),
-            _ => Step::Unsubscribe(UnsubSpec { filters: vec!["pieces/long/filter/name".into()], props: vec![], cancel_at: None }),
+            3 => Step::Unsubscribe(UnsubSpec { filters: vec!["pieces/long/filter/name".into()], props: vec![], cancel_at: None }),
+            // ... or it is an acknowledgement the client owes (PUBACK / PUBREC, five bytes with a
+            // reason code when the identifier is in use) that goes out in pieces
+            _ => Step::Broker(BrokerAct::Send(crate::refcodec::SPacket::Publish { dup: false, qos: 1 + r.below(2) as u8, retain: false, topic: "pieces/in".into(), pid: Some(*r.pick(&[1u16, 0x1234, 65535])), props: vec![], payload: vec![k as u8, 9] })),
         });
         s.push(Step::Poll { max_wait: eff, cancel_at: None });
         s.push(poll0());
@@ -1428,6 +1449,9 @@ pub fn pooled_script(r: &mut Rng, index: u64, tier: Tier) -> (CaseCfg, Vec<Step>
         c04_script,
         c10_script,
         c14_script,
+        long_lived_among_many_script,
+        pingreq_cut_then_resume_script,
+        refused_request_while_half_read_script,
     ];
     let k = (index as usize) % (POOL.len() * 4 + 1);
     if k == POOL.len() * 4 {
@@ -1440,4 +1464,127 @@ pub fn pooled_script(r: &mut Rng, index: u64, tier: Tier) -> (CaseCfg, Vec<Step>
         cfg.rx = 128;
     }
     (cfg, steps)
+}
+
+/// Shared (C18, C07, C17): one to three operations stay unanswered (the broker withholds their
+/// acknowledgements) while 63 .. 260 further requests are made and acknowledged one after the
+/// other on the same connection, so that the identifiers in flight at the same time lie 64, 128,
+/// 256 apart; then the withheld acknowledgements arrive.  Handle statuses are probed after every
+/// step.
+pub fn long_lived_among_many_script(r: &mut Rng, _index: u64, _tier: Tier) -> (CaseCfg, Vec<Step>) {
+    let cfg = CaseCfg { rx: 128, tx: 1024, keepalive: 0, ..CaseCfg::default() };
+    let mut s = vec![connect_with(SpMode::Force(false), AckMode::Hold, vec![])];
+    if r.chance(1, 3) {
+        s.insert(0, Step::SetNextPid(*r.pick(&[1u16, 60, 65_500])));
+    }
+    for k in 0..r.range(1, 3) {
+        s.push(match r.below(4) {
+            0 => Step::Subscribe(SubSpec { filters: vec![FilterSpec { filter: format!("old/{}/#", k), max_qos: 1, no_local: false, rap: false, rh: 0 }], props: vec![], cancel_at: None }),
+            1 => Step::Unsubscribe(UnsubSpec { filters: vec![format!("old/{}", k)], props: vec![], cancel_at: None }),
+            2 => pubq(2, "old", 900 + k as u32, 2),
+            _ => pubq(1, "old", 900 + k as u32, 2),
+        });
+    }
+    s.push(Step::Broker(BrokerAct::Policy(BrokerPolicy { acks: AckMode::Immediate, ping: AckMode::Immediate, fail_pct: 0, longform_pct: 0 })));
+    let n = *r.pick(&[62usize, 63, 64, 65, 66, 127, 128, 129, 200, 260]);
+    for k in 0..n {
+        let q2 = r.chance(1, 6);
+        s.push(pubq(if q2 { 2 } else { 1 }, "young", k as u32, 1));
+        s.push(poll0());
+        s.push(poll0());
+        if q2 {
+            s.push(poll0());
+        }
+    }
+    s.push(Step::Broker(BrokerAct::Release { n: 99, order: Order::Fifo }));
+    for _ in 0..5 {
+        s.push(poll0());
+    }
+    (cfg, s)
+}
+
+/// Shared (C01, C04, C12): a keep-alive PINGREQ is cut short - the application gives the wait up
+/// after the probe's first byte, or after both with the flush still owed - and the connection is
+/// dropped with nothing else pending; the session resumes (or starts afresh) and the broker has a
+/// message for the client: the acknowledgement it is owed goes out whole.
+pub fn pingreq_cut_then_resume_script(r: &mut Rng, _index: u64, _tier: Tier) -> (CaseCfg, Vec<Step>) {
+    use crate::refcodec::SPacket;
+    let ka = *r.pick(&[1u16, 2, 10]);
+    let cfg = CaseCfg { rx: 128, tx: 512, keepalive: ka, ..CaseCfg::default() };
+    let eff = ka as u64 * 1_000_000;
+    let lead = 5_000_000u64.min(eff / 2);
+    let policy = IoPolicy { write: Chunk::One, pend_write: Pend::Always, pend_flush: Pend::Always, ..IoPolicy::default() };
+    let mut s = vec![Step::Connect(ConnectSpec { policy, faults: vec![], connack: ConnackSpec::ok(SpMode::Force(false)), broker: BrokerPolicy { acks: AckMode::Immediate, ping: AckMode::Never, fail_pct: 0, longform_pct: 0 }, cancel_at: None })];
+    // sometimes something was in flight earlier and is long acknowledged
+    if r.chance(1, 2) {
+        s.push(pubq(1, "cut/before", 1, 2));
+        s.push(poll0());
+        s.push(poll0());
+    }
+    s.push(Step::Advance(eff - lead + 1));
+    // awaits of the wait: pend, first byte, pend, second byte, pend, flush
+    s.push(Step::Poll { max_wait: 0, cancel_at: Some(r.range(2, 5)) });
+    s.push(match r.below(3) {
+        0 => Step::ForgetConn,
+        _ => Step::DropConn,
+    });
+    s.push(connect_with(if r.chance(3, 4) { SpMode::Force(true) } else { SpMode::Force(false) }, AckMode::Immediate, vec![]));
+    let q = 1 + r.below(2) as u8;
+    s.push(Step::Broker(BrokerAct::Send(SPacket::Publish { dup: false, qos: q, retain: false, topic: "cut/in".into(), pid: Some(*r.pick(&[1u16, 300])), props: vec![], payload: vec![3, 4] })));
+    s.push(poll0());
+    s.push(poll0());
+    s.push(pubq(1, "cut/after", 2, 2));
+    for _ in 0..3 {
+        s.push(poll0());
+    }
+    (cfg, s)
+}
+
+/// Shared (C04, C13, C08): an inbound packet is half read - the network delivers its first bytes,
+/// the wait is given up - when the application makes a request that is refused locally (too large
+/// for what is left of the transmit arena, for the broker's limit, or carrying an illegal
+/// property; the arena is nearly full of an unacknowledged publish); then the rest arrives.  The
+/// message is delivered exactly as sent.
+pub fn refused_request_while_half_read_script(r: &mut Rng, _index: u64, _tier: Tier) -> (CaseCfg, Vec<Step>) {
+    use crate::refcodec::SPacket;
+    let cfg = CaseCfg { rx: *r.pick(&[128usize, 256]), tx: *r.pick(&[128usize, 256, 512]), keepalive: 0, ..CaseCfg::default() };
+    let mut props = vec![];
+    if r.chance(1, 3) {
+        props.push(Prop::MaximumPacketSize(*r.pick(&[600u32, 1000])));
+    }
+    let mut s = vec![connect_with(SpMode::Force(false), AckMode::Hold, props)];
+    // the arena is filled to within a few bytes by a publish the broker does not acknowledge
+    if r.chance(3, 4) {
+        let leave = r.below(12);
+        s.push(Step::Publish(PubSpec { topic: "k".into(), payload: PayloadSpec::Fill { len: cfg.tx - leave - 9, tag: 0xF111, ascii: false }, qos: 1, retain: false, props: vec![], correlate: None, cancel_at: None }));
+    }
+    let q = r.below(3) as u8;
+    let body: Vec<u8> = (0..r.range(20, 60)).map(|i| (i * 3 + 1) as u8).collect();
+    let mut iprops = vec![];
+    if r.chance(1, 2) {
+        iprops.push(Prop::UserProperty("half".into(), "read".into()));
+    }
+    s.push(Step::Broker(BrokerAct::Gate { after: r.range(1, 24), blocks: 1 }));
+    s.push(Step::Broker(BrokerAct::Send(SPacket::Publish { dup: false, qos: q, retain: r.chance(1, 4), topic: "half/read".into(), pid: if q > 0 { Some(*r.pick(&[1u16, 500])) } else { None }, props: iprops, payload: body })));
+    s.push(match r.below(3) {
+        0 => Step::Recv { max_wait: 0, cancel_at: None },
+        _ => poll0(),
+    });
+    for _ in 0..r.range(1, 2) {
+        s.push(match r.below(6) {
+            0 | 1 => Step::Disconnect(DiscSpec { reason: Some(*r.pick(&[0u8, 4])), props: Some(vec![Prop::ReasonString(str_of(r.range(100, 700), r))]), cancel_at: None }),
+            2 => pubq(1, "refused/big", 0xB16, r.range(300, 900)),
+            3 => pubq(0, "refused/big0", 0xB17, r.range(300, 900)),
+            4 => Step::Subscribe(SubSpec { filters: vec![FilterSpec { filter: "refused/#".into(), max_qos: 1, no_local: false, rap: false, rh: 0 }], props: vec![Prop::TopicAlias(3)], cancel_at: None }),
+            _ => Step::Unsubscribe(UnsubSpec { filters: vec!["u".repeat(r.range(300, 900))], props: vec![], cancel_at: None }),
+        });
+    }
+    for _ in 0..3 {
+        s.push(poll0());
+    }
+    s.push(Step::Broker(BrokerAct::Release { n: 9, order: Order::Fifo }));
+    for _ in 0..3 {
+        s.push(poll0());
+    }
+    (cfg, s)
 }
